@@ -149,7 +149,8 @@ def prefetch(harnesses, scratch_root):
         res = _parse(text)
         if not res:
             # build failure / compiler crash in the scratch copy: renamed item, changed signature, Kani limit -> inconclusive
-            msg = "kx: kani produced no harness result (compile error in harness against the current tree, or a Kani compiler limit): " + text[-1200:]
+            errs = [l for l in text.split("\n") if l.startswith(("error", "thread 'rustc'")) or "unsupported" in l.lower()]
+            msg = "kx: kani produced no harness result (compile error in harness against the current tree, or a Kani compiler limit): " + (" | ".join(errs[:6])[:900] if errs else text[-600:])
             for h in todo:
                 _KCACHE[h] = {"hr": None, "concrete": None, "cmd": cmdtxt, "problem": msg}
             return
